@@ -129,7 +129,8 @@ PLANS = {
                 "allocation. distinct_nontrivial as C01.",
         "assumptions": COMMON_ASSUME + ["a stray access that stays inside another live table frame is caught by the model comparison, one that leaves the frame by the sanitizer",
                                          "a sanitizer pass counts only if its positive controls (1-byte read past / before / after free of a frame-like allocation) were reported by the tool in the same build"],
-        "quick": BOTH_Q + MIRI_Q + VALGRIND_Q, "thorough": BOTH_T + MIRI_T + ASAN_T + VALGRIND_T,
+        "quick": BOTH_Q + [{"flavor": "opt0", "shards": 2, "scale": 0.4, "tag": "in-callback"}] + MIRI_Q + VALGRIND_Q,
+        "thorough": BOTH_T + [{"flavor": "opt0", "shards": 8, "scale": 0.03, "tag": "in-callback"}] + MIRI_T + ASAN_T + VALGRIND_T,
     },
     "C10": {
         "level": "exploration",
